@@ -31,6 +31,10 @@ the `twin` driver runs the matching variant of the model (`fix = true`).
   `conv_needs_stable`: without it they do not.
 * `intersectionSize_eq`, `countCommon_eq`: queries answer the same on equal twins.
 
+C11 for the tree-backed sketch — `bt_md5_valid` and corollaries: in every state reachable through
+any operation of `KmerMinHashBTree` (any parameters) an md5 query answers the digest of the current
+k-mer size and hashes; `bt_fed_reachable`: so for what the sketch command holds.
+
 Part B — the parameter handling.
 * `parse_total`, `parse_error_class_partial` (+ counterexample: a negative `num=`/`scaled=`
   escapes as `argparse.ArgumentTypeError`, which `sketch dna` does not catch);
@@ -40,12 +44,20 @@ Part B — the parameter handling.
 * `factory_one_signature_per_group`, `factory_builds_excl`;
 * `factory_eq_direct`: a sketch built by the factory, after any sequence of hashes, converts to
   exactly the array-backed sketch created directly with those parameters and fed the same hashes;
+* `sketch_eq_direct_sequences` (+ `_factory`): C14 ∘ C02 — records (byte strings) through C02's model
+  of `SeqToHashes` into the factory's tree-backed sketch and into the directly created array-backed
+  one give the same sketch, the same error behaviour, the same md5 and the same JSON;
+* `names_merged`, `names_singleton`, `names_per_file`, `names_stdin`: per record or merged, named
+  from file or first record;
 * the literal tables re-extracted by the translator are what the model assumes
   (`defaults_wellformed`, `template_order`, `cp_defaults_agree`).
 -/
 import SmVerif.Lemmas.BTreeHist
 import SmVerif.Lemmas.SketchParams
 import SmVerif.Lemmas.BTreeQuery
+import SmVerif.Lemmas.SketchFeed
+import SmVerif.Lemmas.BTreeCache
+import SmVerif.Lemmas.SketchNames
 import SmVerif.Props.C01
 
 namespace Sm.C14
@@ -253,6 +265,66 @@ theorem countCommon_eq {b o : BT} (hb : BInv b) (ho : BInv o) (hxb : Excl b.abs)
     (hxo : Excl o.abs) (ds : Bool) : b.countCommon o ds = b.abs.countCommon o.abs ds :=
   Sm.countCommon_abs hb ho hxb hxo ds
 
+/-! ## C11 for the tree-backed sketch: its md5 is a function of its current content only
+
+`BT.Reach` (`Lemmas/BTreeCache.lean`): every state reachable from `new`, the builder
+(`build_template`), `From<KmerMinHash>` or `Deserialize` through add / add-with-abundance / add_many /
+add_many_with_abund / add_from / remove_hash / remove_many / clear / merge / md5sum / clone /
+downsample_scaled / downsample_max_hash / enable_abundance / disable_abundance / set_hash_function
+(current source, plus the four D14 sites as first found).  No hypothesis on the parameters: a
+sketch that is both num and scaled is covered too.  Mirrors `Sm.C11.md5_valid` for `KmerMinHash`. -/
+
+/-- in every reachable state the md5 cache is empty or holds the digest of the current content -/
+theorem bt_cache_inv_reachable {b : BT} (h : BT.Reach b) : CacheInvB b := (sc_reachable h).cache
+
+/-- **an md5 query on a reachable tree-backed sketch answers the digest of its current k-mer size
+and hashes** -/
+theorem bt_md5_valid {b : BT} (h : BT.Reach b) : b.md5sum.2 = ⟨b.ksize, b.mins⟩ :=
+  (sc_md5sum (sc_reachable h)).2
+
+theorem bt_equal_content_equal_md5 {a b : BT} (ha : BT.Reach a) (hb : BT.Reach b)
+    (hk : a.ksize = b.ksize) (hm : a.mins = b.mins) : a.md5sum.2 = b.md5sum.2 := by
+  rw [bt_md5_valid ha, bt_md5_valid hb, hk, hm]
+
+theorem bt_changed_hashes_changed_preimage {a b : BT} (ha : BT.Reach a) (hb : BT.Reach b)
+    (hm : a.mins ≠ b.mins) : a.md5sum.2 ≠ b.md5sum.2 := by
+  rw [bt_md5_valid ha, bt_md5_valid hb]
+  intro h
+  injection h with _ h2
+  exact hm h2
+
+theorem bt_md5_query_idempotent {b : BT} (h : BT.Reach b) : b.md5sum.1.md5sum.2 = b.md5sum.2 := by
+  have h1 := bt_md5_valid (BT.Reach.md5 h)
+  have hf := md5sum_fields_bt b
+  have hk : b.md5sum.1.ksize = b.ksize := by
+    obtain ⟨num, maxHash, ksize, seed, hf, mins, abunds, cm, md5⟩ := b
+    cases md5 <;> rfl
+  rw [h1, bt_md5_valid h, hf.1, hk]
+
+/-- the md5 of a reachable tree-backed sketch is the md5 of the array-backed sketch it converts to
+(`sig.minhash`), whatever the thresholds -/
+theorem bt_md5_eq_converted {b : BT} (h : BT.Reach b) : b.md5sum.2 = b.intoVec.md5sum.2 := by
+  rw [bt_md5_valid h, intoVec_eq]
+  rfl
+
+/-- what the sketch command holds after feeding records is reachable, so all of the above
+applies to it -/
+theorem bt_fed_reachable (hashS : Nat → List Nat → Nat) (p : Sketch.CP) (k : Nat) (m : Sketch.Mol)
+    (input : Sketch.Input) (force : Bool) (records : List (List Nat)) :
+    BT.Reach (Sketch.feedBT hashS (Sketch.template p k m) m.toHashFn input force records).1 := by
+  unfold Sketch.feedBT
+  generalize (records.map _) = runs
+  have h0 : BT.Reach (Sketch.template p k m) := BT.Reach.builder p k m
+  generalize Sketch.template p k m = b at h0
+  induction runs generalizing b with
+  | nil => exact h0
+  | cons r rest ih =>
+    obtain ⟨hs, stop⟩ := r
+    unfold Sketch.feed
+    split
+    · exact ih _ (BT.Reach.addMany h0 hs)
+    · exact BT.Reach.addMany h0 hs
+
 /-! ## Part B: parameter strings, the factory, `build_template` -/
 
 open Sketch
@@ -344,6 +416,81 @@ theorem factory_eq_direct_json (p : CP) (k : Nat) (m : Mol) (hs : List Nat)
       ((MH.new p.scaled k m.hf p.seed p.track p.num).addMany hs).serialize.2 :=
   Sketch.factory_direct_json p k m hs hx
 
+/-- **C14 ∘ C02, the property's first sentence as one theorem.**  For every parameter set `p`,
+k-mer size `k` and molecule type `m`, every list of records (arbitrary byte strings: DNA with invalid
+characters, short records, protein), nucleotide or amino-acid input, with or without
+`--check-sequence` (`force`), and every seeded hash function: run each record through C02's model
+of `SeqToHashes` (`add_sequence` / `add_protein` semantics: skipped k-mers, first error aborts,
+hashes before the error are kept) into the tree-backed sketch the factory built, and into the
+array-backed sketch created directly with those parameters.  Then the factory's sketch converts
+(`sig.minhash`) to exactly the direct one, both loops end the same way, the md5 answers coincide
+and the JSON written is the same.  (`hashS seed` is the real `Murmur3.hashNat seed`; C02's theorems
+say which byte strings it is applied to.) -/
+theorem sketch_eq_direct_sequences (hashS : Nat → List Nat → Nat) (p : CP) (k : Nat) (m : Mol)
+    (input : Input) (force : Bool) (records : List (List Nat))
+    (hx : p.scaled = 0 ∨ p.num = 0) (hst : Stable (mhR p.scaled)) :
+    let fb := feedBT hashS (template p k m) m.toHashFn input force records
+    let fv := feedMH hashS (MH.new p.scaled k m.hf p.seed p.track p.num) m.toHashFn input force records
+    fb.1.intoVec = { fv.1 with md5 := none } ∧ fb.2 = fv.2 ∧ fb.1.md5sum.2 = fv.1.md5sum.2 ∧
+    fb.1.serialize.2 = fv.1.serialize.2 :=
+  Sketch.sketch_direct_sequences hashS p k m input force records hx hst
+
+/-- the same for everything the factory builds from parameter strings: every sketch of every
+signature is `template c k m` for a parameter set that is num or scaled, so the theorem above
+applies to it (only `Stable` of its threshold remains as hypothesis) -/
+theorem sketch_eq_direct_sequences_factory (hashS : Nat → List Nat → Nat) (ps : List (List Char))
+    (d : Option Mol) (split : Bool) (sigs : List (List BT)) (h : factory ps d split = .ok sigs)
+    (input : Input) (force : Bool) (records : List (List Nat)) :
+    ∀ sig ∈ sigs, ∀ b ∈ sig, ∃ c k m, b = template c k m ∧
+      (Stable (mhR c.scaled) →
+        let fb := feedBT hashS b m.toHashFn input force records
+        let fv := feedMH hashS (MH.new c.scaled k m.hf c.seed c.track c.num) m.toHashFn input force records
+        fb.1.intoVec = { fv.1 with md5 := none } ∧ fb.2 = fv.2 ∧ fb.1.md5sum.2 = fv.1.md5sum.2 ∧
+        fb.1.serialize.2 = fv.1.serialize.2) := by
+  intro sig hsig b hb
+  obtain ⟨c, k, m, hex, rfl⟩ := Sketch.factory_templates ps d split sigs h sig hsig b hb
+  exact ⟨c, k, m, rfl, fun hst => Sketch.sketch_direct_sequences hashS c k m input force records hex hst⟩
+
+/-! ### per record or merged, named from file or first record (`Model/SketchNames.lean`) -/
+
+/-- `--merge NAME`: when at least one record was read, exactly one signature set, named NAME,
+fed every record of every file in order; the file name recorded is that of the LAST input file -/
+theorem names_merged (nm : List Char) (files : List SeqFile)
+    (h : (files.flatMap (fun f => f.records.map Prod.snd)) ≠ []) :
+    plan (.merge nm) files =
+      [⟨some nm, recordedFilename (lastName files), files.flatMap (fun f => f.records.map Prod.snd)⟩] :=
+  Sketch.plan_merge nm files h
+
+/-- … and nothing is written when no record was read -/
+theorem names_merged_empty (nm : List Char) (files : List SeqFile)
+    (h : (files.flatMap (fun f => f.records.map Prod.snd)) = []) : plan (.merge nm) files = [] :=
+  Sketch.plan_merge_empty nm files h
+
+/-- `--singleton`: one signature set per record, named after the record, in order -/
+theorem names_singleton (files : List SeqFile) :
+    plan .singleton files =
+      files.flatMap (fun f => f.records.map (fun r => ⟨some r.1, recordedFilename f.name, [r.2]⟩)) ∧
+    (plan .singleton files).length = (files.map (fun f => f.records.length)).sum := by
+  refine ⟨?_, Sketch.plan_singleton_length files⟩
+  unfold plan
+  simp only []
+  congr 1
+  funext f
+  exact Sketch.unitsOfFile_singleton f
+
+/-- default / `--name-from-first`: one signature set per input file that has records, fed all its
+records, unnamed resp. named after its first record; a file without records yields nothing -/
+theorem names_per_file (nff : Bool) (f : SeqFile) :
+    (f.records = [] → unitsOfFile false nff f = []) ∧
+    (∀ first rest, f.records = first :: rest →
+      unitsOfFile false nff f =
+        [⟨if nff then some first.1 else none, recordedFilename f.name, f.records.map Prod.snd⟩]) :=
+  ⟨Sketch.unitsOfFile_empty false nff f, fun first rest h => Sketch.unitsOfFile_perFile nff f first rest h⟩
+
+/-- standard input is recorded as the empty file name, every other name as it is -/
+theorem names_stdin : recordedFilename "-".toList = [] ∧ recordedFilename "a.fa".toList = "a.fa".toList := by
+  decide
+
 /-! ### the translator's tables are the ones the model assumes -/
 
 /-- every per-moltype default string parses, names no molecule type, has a k size and an
@@ -375,5 +522,17 @@ example : Allowed emptyTab
 
 example : (factory ["k=21,k=31,scaled=1000,abund".toList, "num=500".toList] (some .dna) false).toOption.map
     (fun sigs => sigs.map List.length) = some [2, 1] := by decide +kernel
+
+/-- a concrete instance of `sketch_eq_direct_sequences` with the real hash (Murmur3 model): the
+record `ACGTNACGTTGCA` (one invalid character) and the too-short record `AC`, k = 5, scaled = 1,
+with abundance tracking: four hashes retained, both sketches equal -/
+example :
+    let p : CP := { ksizes := [5], seed := 42, protein := false, dayhoff := false, hp := false, dna := true,
+                    num := 0, track := true, scaled := 1 }
+    let recs := [[65, 67, 71, 84, 78, 65, 67, 71, 84, 84, 71, 67, 65], [65, 67]]
+    (feedBT Murmur3.hashNat (template p 5 .dna) .dna .dna true recs).1.mins.length = 4 ∧
+    (feedBT Murmur3.hashNat (template p 5 .dna) .dna .dna true recs).1.mins =
+      (feedMH Murmur3.hashNat (MH.new 1 5 1 42 true 0) .dna .dna true recs).1.mins := by
+  decide +kernel
 
 end Sm.C14
